@@ -27,7 +27,8 @@ abbrev NoSilentMutation := @Lemmas.CacheL.NoSilentMutation
 
 /-- **Cache transparency.** In every history of one linker's operations — requests with and without
 cache, named computations, table drops, `invalidate_cache()`, data changes followed by
-`invalidate_cache()`, `delete_tables_created_by_splink_from_db` — every request returns exactly the
+`invalidate_cache()`, `delete_tables_created_by_splink_from_db`, changes of the hash salt, tables replaced
+under their name through Splink (`reregister`) — every request returns exactly the
 contents its SQL produces on the *current* data: what ran before is invisible. -/
 theorem cache_transparent (hash eval : Nat → Nat → Nat) (namedText : Nat → Nat)
     (hinj : HashInj hash) (pre post : List Op) (r : Req)
@@ -45,6 +46,31 @@ theorem invalidate_reflects_new_data (hash eval : Nat → Nat → Nat) (namedTex
       eval r.text ((run hash eval init pre).data + 1) :=
   Lemmas.CacheL.request_after_mutateInvalidate hash eval namedText hinj pre post r hnamed hmut
 
+/-- **A table replaced through Splink needs no `invalidate_cache()`** (the point of repair 4551b8fa:
+`register_table` / `register_table_predict` / `register_labels_table` / a `Linker`'s input registration with
+`overwrite=True` on an existing name forget the results stored under a templated name and re-draw the salt
+of the hashed names): the request right after the re-registration returns what its SQL denotes on the NEW
+data, although every table computed from the old data is still in the catalog and in the dict. -/
+theorem reregistration_reflects_new_data (hash eval : Nat → Nat → Nat) (namedText : Nat → Nat)
+    (hinj : HashInj hash) (pre post : List Op) (r : Req)
+    (hnamed : NamedDiscipline namedText (pre ++ Op.reregister :: Op.req r :: post))
+    (hmut : NoSilentMutation pre) :
+    (request hash eval (run hash eval init (pre ++ [Op.reregister])) r).val =
+      eval r.text ((run hash eval init pre).data + 1) :=
+  Lemmas.CacheL.request_after_reregister hash eval namedText hinj pre post r hnamed hmut
+
+/-- …and so does EVERY later request, whatever ran in between (`mid`: any operations but the silent
+`mutate`): it returns what its SQL denotes on the data of its own time, and those are strictly newer than the
+data the replaced table belonged to. -/
+theorem reregistration_reflects_new_data_later (hash eval : Nat → Nat → Nat) (namedText : Nat → Nat)
+    (hinj : HashInj hash) (pre mid post : List Op) (r : Req)
+    (hnamed : NamedDiscipline namedText ((pre ++ Op.reregister :: mid) ++ Op.req r :: post))
+    (hmut : NoSilentMutation (pre ++ Op.reregister :: mid)) :
+    (request hash eval (run hash eval init (pre ++ Op.reregister :: mid)) r).val =
+        eval r.text (run hash eval init (pre ++ Op.reregister :: mid)).data ∧
+      (run hash eval init pre).data < (run hash eval init (pre ++ Op.reregister :: mid)).data :=
+  Lemmas.CacheL.request_later_after_reregister hash eval namedText hinj pre mid post r hnamed hmut
+
 /-- A request answered from the cache or the catalog returns what executing it would return. -/
 theorem hit_equals_miss (hash eval : Nat → Nat → Nat) (namedText : Nat → Nat)
     (hinj : HashInj hash) (pre post : List Op) (r : Req)
@@ -60,8 +86,9 @@ theorem model_change_changes_key (hash : Nat → Nat → Nat) (hinj : HashInj ha
     (h : t ≠ t' ∨ u ≠ u') : (⟨templ, hash t u⟩ : Phys) ≠ ⟨templ, hash t' u'⟩ :=
   Lemmas.CacheL.phys_ne hash hinj templ t t' u u' h
 
-/-- The discipline is necessary: a data change without `invalidate_cache()` (two linkers sharing one
-DatabaseAPI re-register `__splink__input_table_0`) is served the stale table. -/
+/-- The discipline is necessary: a data change behind Splink's back (an `INSERT` into the input table, a
+view whose source changed) without `invalidate_cache()` is served the stale table.  (A change THROUGH Splink —
+a table re-registered with `overwrite=True` — is `reregister`, not `mutate`.) -/
 theorem silent_mutation_counter :
     ∃ (hash eval : Nat → Nat → Nat) (pre : List Op) (r : Req), HashInj hash ∧
       (request hash eval (run hash eval init pre) r).val ≠ eval r.text (run hash eval init pre).data :=
@@ -99,5 +126,28 @@ example :
     (request hash eval s1 ⟨7, 3, true⟩).hit = true ∧
     (request hash eval (run hash eval s1 [Op.mutateInvalidate]) ⟨7, 3, true⟩).hit = false ∧
     (request hash eval (run hash eval s1 [Op.mutateInvalidate]) ⟨7, 3, true⟩).val = 13 := by decide
+
+/-- Non-vacuity of the re-registration theorems: request (miss), same request (hit), a named computation;
+after `reregister` the same request is a miss and returns the value on the new data (3 + 10·1), the named
+entry is gone, the old table is still in the catalog (nothing is dropped), and a request for the named
+table recomputes on the new data too. -/
+example :
+    let hash := fun t u => t * 1000 + u
+    let eval := fun t d => t + 10 * d
+    let s1 := run hash eval init [Op.req ⟨7, 3, true⟩, Op.computeNamed ⟨8, 4, true⟩]
+    let s2 := run hash eval s1 [Op.reregister]
+    (request hash eval s1 ⟨7, 3, true⟩).hit = true ∧ (request hash eval s1 ⟨8, 5, true⟩).val = 4 ∧
+    (request hash eval s2 ⟨7, 3, true⟩).hit = false ∧ (request hash eval s2 ⟨7, 3, true⟩).val = 13 ∧
+    (request hash eval s2 ⟨8, 4, true⟩).hit = false ∧ (request hash eval s2 ⟨8, 4, true⟩).val = 14 ∧
+    s2.db.length = 2 ∧ s2.cache.length = 2 ∧ s2.uid = 1 := by decide
+
+/-- …and the salt change alone (`resalt`, the data unchanged) makes the hashed tables unreachable but keeps the
+named entries. -/
+example :
+    let hash := fun t u => t * 1000 + u
+    let eval := fun t d => t + 10 * d
+    let s := run hash eval init [Op.req ⟨7, 3, true⟩, Op.computeNamed ⟨8, 4, true⟩, Op.resalt]
+    (request hash eval s ⟨7, 3, true⟩).hit = false ∧ (request hash eval s ⟨7, 3, true⟩).val = 3 ∧
+    (request hash eval s ⟨8, 4, true⟩).hit = true := by decide
 
 end SplinkVerif.C07
